@@ -573,7 +573,10 @@ class SVG:
                 # a clip-path on <use> lives in the coordinate system of the use;
                 # pushed down onto a target with its own transform it would move
                 # with that transform, so keep the wrapping group in that case
-                keep_group = "clip-path" in group.attrib and "transform" in new_el.attrib
+                # (nor can it be merged with a clip-path of the target itself)
+                keep_group = "clip-path" in group.attrib and (
+                    "transform" in new_el.attrib or "clip-path" in new_el.attrib
+                )
                 if not keep_group and _try_remove_group(group, push_opacity=False):
                     _inherit_attrib(group.attrib, new_el)
                     swaps.append((use_el, new_el))
